@@ -65,9 +65,95 @@ func main() {
 		die("type check: %v", err)
 	}
 
-	isGlobal := func(id *ast.Ident) bool {
+	// aliases: local variables that were assigned a package-level variable of reference type, or
+	// the address of one (buf := &global; m := globalMap): every later use of the local is an
+	// access to the global (a simple intra-procedural, flow-insensitive alias rule)
+	aliases := map[types.Object]string{}
+	pkgVar := func(id *ast.Ident) (string, bool) {
 		v, ok := info.Uses[id].(*types.Var)
-		return ok && v.Parent() == pkg.Scope()
+		if ok && v.Parent() == pkg.Scope() {
+			return v.Name(), true
+		}
+		return "", false
+	}
+	aliasSource := func(e ast.Expr) (string, bool) {
+		if u, ok := e.(*ast.UnaryExpr); ok && u.Op == token.AND {
+			e = u.X
+			for {
+				switch x := e.(type) {
+				case *ast.SelectorExpr:
+					e = x.X
+					continue
+				case *ast.IndexExpr:
+					e = x.X
+					continue
+				}
+				break
+			}
+			if id, ok := e.(*ast.Ident); ok {
+				return pkgVar(id)
+			}
+			return "", false
+		}
+		if id, ok := e.(*ast.Ident); ok {
+			if name, ok := pkgVar(id); ok {
+				switch info.Uses[id].Type().Underlying().(type) {
+				case *types.Pointer, *types.Map, *types.Slice, *types.Chan:
+					return name, true
+				}
+			}
+		}
+		return "", false
+	}
+	for _, f := range files {
+		ast.Inspect(f, func(n ast.Node) bool {
+			switch x := n.(type) {
+			case *ast.AssignStmt:
+				if len(x.Lhs) == len(x.Rhs) {
+					for i, r := range x.Rhs {
+						if name, ok := aliasSource(r); ok {
+							if id, ok := x.Lhs[i].(*ast.Ident); ok {
+								if obj := info.Defs[id]; obj != nil {
+									aliases[obj] = name
+								} else if obj := info.Uses[id]; obj != nil {
+									if v, ok := obj.(*types.Var); ok && v.Parent() != pkg.Scope() {
+										aliases[obj] = name
+									}
+								}
+							}
+						}
+					}
+				}
+			case *ast.ValueSpec:
+				if len(x.Names) == len(x.Values) {
+					for i, r := range x.Values {
+						if name, ok := aliasSource(r); ok {
+							if obj := info.Defs[x.Names[i]]; obj != nil {
+								if v, ok := obj.(*types.Var); ok && v.Parent() != pkg.Scope() {
+									aliases[obj] = name
+								}
+							}
+						}
+					}
+				}
+			}
+			return true
+		})
+	}
+	globalName := func(id *ast.Ident) (string, bool) {
+		if name, ok := pkgVar(id); ok {
+			return name, true
+		}
+		if obj := info.Uses[id]; obj != nil {
+			if name, ok := aliases[obj]; ok {
+				return name, true
+			}
+		}
+		return "", false
+	}
+	isGlobal := func(id *ast.Ident) bool {
+		_, ok := globalName(id)
+		return ok
 	}
 	rootIdent := func(e ast.Expr) *ast.Ident {
 		for {
@@ -148,7 +234,8 @@ func main() {
 					if u.vars == nil {
 						u.vars = map[string]bool{}
 					}
-					u.vars[c.Name] = true
+					gn, _ := globalName(c)
+					u.vars[gn] = true
 				}
 			}
 			return true
@@ -402,7 +489,7 @@ func main() {
 	os.WriteFile(filepath.Join(out, "overlay.json"), b, 0o644)
 	rep, _ := json.MarshalIndent(map[string]any{"map_range_sites": sites, "points": points, "globals": globals, "sync_or_goroutines": syncUse}, "", " ")
 	os.WriteFile(filepath.Join(out, "report.json"), rep, 0o644)
-	fmt.Printf("instr: %d map-range sites rewritten, %d access points inserted, %d package-level variables, sync/goroutine uses: %d\n", len(sites), len(points), len(globals), len(syncUse))
+	fmt.Printf("instr: %d map-range sites rewritten, %d access points inserted, %d package-level variables, %d local aliases of them, sync/goroutine uses: %d\n", len(sites), len(points), len(globals), len(aliases), len(syncUse))
 }
 
 const extraSrc = `//go:build verif
